@@ -1,8 +1,8 @@
-from typing import Any, Iterable, List, Optional, Tuple
+from typing import Any, Iterable, List, Optional, Set, Tuple
 
 from pdfminer import settings
 from pdfminer.pdfparser import PDFSyntaxError
-from pdfminer.pdftypes import dict_value, int_value, list_value
+from pdfminer.pdftypes import PDFObjRef, dict_value, int_value, list_value
 from pdfminer.utils import choplist
 
 
@@ -25,7 +25,9 @@ class NumberTree:
         if "Limits" in self._obj:
             self.limits = list_value(self._obj["Limits"])
 
-    def _parse(self) -> List[Tuple[int, Any]]:
+    def _parse(self, visited: Optional[Set[int]] = None) -> List[Tuple[int, Any]]:
+        if visited is None:
+            visited = set()
         items = []
         if self.nums:  # Leaf node
             for k, v in choplist(2, self.nums):
@@ -33,7 +35,13 @@ class NumberTree:
 
         if self.kids:  # Root or intermediate node
             for child_ref in self.kids:
-                items += NumberTree(child_ref)._parse()
+                if isinstance(child_ref, PDFObjRef):
+                    # A node that is its own descendant must not be read
+                    # over and over again.
+                    if child_ref.objid in visited:
+                        continue
+                    visited.add(child_ref.objid)
+                items += NumberTree(child_ref)._parse(visited)
 
         return items
 
